@@ -97,6 +97,23 @@ def direct_cases():
                            ('return', num(0))]),
                          ('repeat', ('in', items, 'L', w), [P(('call', 'deep', [num(2)])), P(v('L'))]),
                          P(('expr', ('bin', '+', num(100), ('call', 'deep', [num(2)]))))], pop))
+        # bounds given as variables and expressions that mention the loop's own index variable (an
+        # existing variable re-used as index): both bounds are evaluated before the index is set
+        out.append(([('assign', 'i', num(5)), ('repeat', ('range', 'i', num(1), v('i')), [P(v('i'))])], pop))
+        out.append(([('assign', 'i', num(3)),
+                     ('repeat', ('range', 'i', v('i'), ('expr', ('bin', '+', v('i'), num(2)))), [P(v('i'))])], pop))
+        out.append(([('assign', 'i', num(2)),
+                     ('repeat', ('range', 'i', ('expr', ('bin', '*', v('i'), num(3))), v('i')), [P(v('i'))])], pop))
+        out.append(([('assign', 'x', num(100)),
+                     ('repeat', ('interp', num(3), 'x', num(0), v('x')), [P(v('x'))])], pop))
+        out.append(([('assign', 'x', num(8)),
+                     ('repeat', ('interp', v('x'), 'x', v('x'), ('expr', ('bin', '-', v('x'), num(7)))),
+                      [P(v('x'))])], pop))
+        out.append(([('assign', 'h', num(45)), ('repeat', ('cycle', num(4), 'h', v('h')), [P(v('h'))])], pop))
+        out.append(([('assign', 'h', num(90)),
+                     ('repeat', ('all', 'L', ('from', 'h', num(0), v('h'))), [P(v('L')), P(v('h'))])], pop))
+        out.append(([('define', 'f', ['n'], [('repeat', ('range', 'n', num(1), v('n')), [P(v('n'))])]),
+                     ('call', 'f', [num(4)], False)], pop))
         # while re-tests before every pass; break ends only the innermost loop
         out.append(([('assign', 'y', num(0)),
                      ('repeat', ('while', ('expr', ('bin', '<', v('y'), num(4))), 'y'),
